@@ -103,6 +103,69 @@ Section Solve.
   Definition trivial_solution (P : problem) (t : list F) (y : list vec) (segs : option (list seg)) : solution :=
     mkSol t y (repeat [] (pr_nevents P)) (repeat [] (pr_nevents P)) stats0 Success segs [] [] [] 0 (zero O).
 
+  (* dispatch to a low-level solver with the builder defaults solve_ivp uses; any callback *)
+  Definition run_method {H : Type} (P : problem) (x0 xend : F) (y0 : vec) (opt : options)
+             (cb : H -> F -> F -> vec -> option (vec * F * F) -> H * flag F * vec) (cb0 : H) (fuel : nat)
+    : option (status * stats * list (F * vec) * H * F * list (F * vec) * F * vec) :=
+    let nmax := match o_max_steps opt with Some k => k | None => USIZE_MAX end in
+    match o_method opt with
+    | MDOPRI5 =>
+        (* defaults: uround, safety_factor, scale_min, scale_max, beta *)
+        let Pm := Dopri5.mkP (dflt opt 0) (dflt opt 1) (dflt opt 2) (dflt opt 3) (dflt opt 4)
+                             (o_max_step opt) (o_first_step opt) nmax (o_nstiff opt) true in
+        match Dopri5.solve O Pm (pr_f P) x0 y0 xend (o_rtol opt) (o_atol opt) cb cb0 fuel with
+        | Some r => Some (Dopri5.r_status r, Dopri5.r_stats r, Dopri5.r_log r, Dopri5.r_cb r, Dopri5.r_h r, [],
+                          Dopri5.r_x r, Dopri5.r_y r)
+        | None => None
+        end
+    | MDOP853 =>
+        let Pm := Dop853.mkP (dflt opt 0) (dflt opt 1) (dflt opt 2) (dflt opt 3) (dflt opt 4)
+                             (o_max_step opt) (o_first_step opt) nmax (o_nstiff opt) true in
+        match Dop853.solve O Pm (pr_f P) x0 y0 xend (o_rtol opt) (o_atol opt) cb cb0 fuel with
+        | Some r => Some (Dop853.r_status r, Dop853.r_stats r, Dop853.r_log r, Dop853.r_cb r, Dop853.r_h r, [],
+                          Dop853.r_x r, Dop853.r_y r)
+        | None => None
+        end
+    | MRK23 =>
+        (* defaults: safety_factor, scale_min, scale_max *)
+        let Pm := Rk23.mkP (dflt opt 0) (dflt opt 1) (dflt opt 2)
+                           (o_max_step opt) (o_first_step opt) nmax true in
+        match Rk23.solve O Pm (pr_f P) x0 y0 xend (o_rtol opt) (o_atol opt) cb cb0 fuel with
+        | Some r => Some (Rk23.r_status r, Rk23.r_stats r, Rk23.r_log r, Rk23.r_cb r, Rk23.r_h r, [],
+                          Rk23.r_x r, Rk23.r_y r)
+        | None => None
+        end
+    | MRK4 =>
+        let h := match o_first_step opt with Some h0 => h0 | None => (xend - x0) / L L100 end in
+        match Rk4.solve O (Rk4.mkP nmax true) (pr_f P) x0 y0 xend h cb cb0 fuel with
+        | Some r => Some (Rk4.r_status r, Rk4.r_stats r, Rk4.r_log r, Rk4.r_cb r, Rk4.r_h r, [],
+                          Rk4.r_x r, Rk4.r_y r)
+        | None => None
+        end
+    | MRADAU =>
+        (* defaults: uround, safety_factor, scale_min, scale_max; o_nstiff = newton_maxiter *)
+        let Pm := Radau.mkP nmax (dflt opt 0) (dflt opt 1) (dflt opt 2) (dflt opt 3)
+                            (o_max_step opt) (o_min_step opt) (N.to_nat (o_nstiff opt)) None true
+                            (o_first_step opt) true in
+        let n := length y0 in
+        match Radau.solve O Pm (pr_f P) (jac_of P (o_jac_storage opt) n) (mass_of P (o_mass_storage opt))
+                          x0 y0 xend (o_rtol opt) (o_atol opt) cb cb0 fuel with
+        | Some r => Some (Radau.r_status r, Radau.r_stats r, Radau.r_log r, Radau.r_cb r, Radau.r_h r,
+                          Radau.r_jaclog r, Radau.r_x r, Radau.r_y r)
+        | None => None
+        end
+    | MBDF =>
+        (* o_nstiff = newton_maxiter *)
+        let Pm := Bdf.mkP nmax (o_max_step opt) (o_min_step opt) (N.to_nat (o_nstiff opt)) None (o_first_step opt) in
+        let n := length y0 in
+        match Bdf.solve O Pm (pr_f P) (jac_of P (o_jac_storage opt) n) x0 y0 xend (o_rtol opt) (o_atol opt)
+                        cb cb0 fuel with
+        | Some r => Some (Bdf.r_status r, Bdf.r_stats r, Bdf.r_log r, Bdf.r_cb r, Bdf.r_h r, Bdf.r_jaclog r,
+                          Bdf.r_x r, Bdf.r_y r)
+        | None => None
+        end
+    end.
+
   Definition solve_ivp (P : problem) (x0 xend : F) (y0 : vec) (opt : options) (fuel : nat)
     : option solution :=
     if abs O (xend - x0) <? L L1em15 then
@@ -123,66 +186,9 @@ Section Solve.
         end in
       let C := mkHC (o_t_eval opt) (o_dense opt) first_output_step x0 (pr_events P) (pr_nevents P)
                     (pr_evcfg P) (interp_fn (o_method opt)) in
-      let nmax := match o_max_steps opt with Some k => k | None => USIZE_MAX end in
-      let res :=
-        match o_method opt with
-        | MDOPRI5 =>
-            (* defaults: uround, safety_factor, scale_min, scale_max, beta *)
-            let Pm := Dopri5.mkP (dflt opt 0) (dflt opt 1) (dflt opt 2) (dflt opt 3) (dflt opt 4)
-                                 (o_max_step opt) (o_first_step opt) nmax (o_nstiff opt) true in
-            match Dopri5.solve O Pm (pr_f P) x0 y0 xend (o_rtol opt) (o_atol opt)
-                               (handler_cb C) (hs_init O C) fuel with
-            | Some r => Some (Dopri5.r_status r, Dopri5.r_stats r, Dopri5.r_log r, Dopri5.r_cb r, Dopri5.r_h r, [])
-            | None => None
-            end
-        | MDOP853 =>
-            let Pm := Dop853.mkP (dflt opt 0) (dflt opt 1) (dflt opt 2) (dflt opt 3) (dflt opt 4)
-                                 (o_max_step opt) (o_first_step opt) nmax (o_nstiff opt) true in
-            match Dop853.solve O Pm (pr_f P) x0 y0 xend (o_rtol opt) (o_atol opt)
-                               (handler_cb C) (hs_init O C) fuel with
-            | Some r => Some (Dop853.r_status r, Dop853.r_stats r, Dop853.r_log r, Dop853.r_cb r, Dop853.r_h r, [])
-            | None => None
-            end
-        | MRK23 =>
-            (* defaults: safety_factor, scale_min, scale_max *)
-            let Pm := Rk23.mkP (dflt opt 0) (dflt opt 1) (dflt opt 2)
-                               (o_max_step opt) (o_first_step opt) nmax true in
-            match Rk23.solve O Pm (pr_f P) x0 y0 xend (o_rtol opt) (o_atol opt)
-                             (handler_cb C) (hs_init O C) fuel with
-            | Some r => Some (Rk23.r_status r, Rk23.r_stats r, Rk23.r_log r, Rk23.r_cb r, Rk23.r_h r, [])
-            | None => None
-            end
-        | MRK4 =>
-            let h := match o_first_step opt with Some h0 => h0 | None => (xend - x0) / L L100 end in
-            match Rk4.solve O (Rk4.mkP nmax true) (pr_f P) x0 y0 xend h
-                            (handler_cb C) (hs_init O C) fuel with
-            | Some r => Some (Rk4.r_status r, Rk4.r_stats r, Rk4.r_log r, Rk4.r_cb r, Rk4.r_h r, [])
-            | None => None
-            end
-        | MRADAU =>
-            (* defaults: uround, safety_factor, scale_min, scale_max; o_nstiff = newton_maxiter *)
-            let Pm := Radau.mkP nmax (dflt opt 0) (dflt opt 1) (dflt opt 2) (dflt opt 3)
-                                (o_max_step opt) (o_min_step opt) (N.to_nat (o_nstiff opt)) None true
-                                (o_first_step opt) true in
-            let n := length y0 in
-            match Radau.solve O Pm (pr_f P) (jac_of P (o_jac_storage opt) n) (mass_of P (o_mass_storage opt))
-                              x0 y0 xend (o_rtol opt) (o_atol opt) (handler_cb C) (hs_init O C) fuel with
-            | Some r => Some (Radau.r_status r, Radau.r_stats r, Radau.r_log r, Radau.r_cb r, Radau.r_h r, Radau.r_jaclog r)
-            | None => None
-            end
-        | MBDF =>
-            (* o_nstiff = newton_maxiter *)
-            let Pm := Bdf.mkP nmax (o_max_step opt) (o_min_step opt) (N.to_nat (o_nstiff opt)) None (o_first_step opt) in
-            let n := length y0 in
-            match Bdf.solve O Pm (pr_f P) (jac_of P (o_jac_storage opt) n) x0 y0 xend (o_rtol opt) (o_atol opt)
-                            (handler_cb C) (hs_init O C) fuel with
-            | Some r => Some (Bdf.r_status r, Bdf.r_stats r, Bdf.r_log r, Bdf.r_cb r, Bdf.r_h r, Bdf.r_jaclog r)
-            | None => None
-            end
-        end in
-      match res with
+      match run_method P x0 xend y0 opt (handler_cb C) (hs_init O C) fuel with
       | None => None
-      | Some (st, stats, log, hs, hfin, jl) =>
+      | Some (st, stats, log, hs, hfin, jl, _, _) =>
           Some (mkSol (frev (hs_t hs)) (frev (hs_y hs)) (map frev (hs_tev hs)) (map frev (hs_yev hs))
                       stats st (if o_dense opt then Some (frev (hs_segs hs)) else None)
                       (frev log) (frev (hs_evlog hs)) (frev jl) (hs_brent_unconverged hs) hfin)
